@@ -121,7 +121,7 @@ P("C15", "decoders accept exactly the valid encodings and never overrun the outp
               "compared with the validity predicate and reference decoder of the statement; the output buffer is a heap block of exactly output_size bytes (red zone behind it) filled with a "
               "canary so writes beyond output_size or beyond the returned length are observed; exhaustive over all 256^2 hex digit pairs, every byte value at every position of first/middle/last "
               "base64 group, all 256^2 values of every position pair of the last group"),
-  technique="differential runtime monitoring against a reference validity predicate, exact-size output buffers + canary under ASan+UBSan",
+  technique="differential runtime monitoring against a reference validity predicate, exact-size output buffers + canary under ASan+UBSan; thorough tier additionally: the same per-input monitors as a clang 14 libFuzzer target (coverage-guided, 16 processes on a shared corpus, fixed execution count)",
   rule=("a case is one input string (as hex or as base64), run through the allocating decoder, the null-output query and the caller-buffer decoder with output_size in {0, len-2, len-1, len/2, len, len+1, len+64, 2^32, 2^63-1, 2^63, SIZE_MAX}; "
         "distinct by (codec, input bytes); evaluations count library calls; no case is trivial"),
   assumptions=["on rejection (-1) partial writes inside the first output_size bytes are allowed; beyond output_size never",
@@ -181,7 +181,7 @@ P("C02", "validation modes accept, reject and repair malformed input correctly",
   level_text=("runtime monitoring: malformed and tolerated-form inputs in each source encoding (exhaustive over short strings of a branch-covering alphabet, embedded in valid text of every width class, "
               "every truncation, seeded mutations) run through every reading conversion in all three modes under ASan+UBSan; throw/no-throw and the repaired units are compared with the reference decoder of the statement, "
               "repaired output is re-validated, and the build is repeated for the three ST_DEFAULT_VALIDATION settings with mode-less calls compared against the configured mode"),
-  technique="differential runtime monitoring against a reference decoder (accept/reject + repair) under ASan+UBSan, three build configurations",
+  technique="differential runtime monitoring against a reference decoder (accept/reject + repair) under ASan+UBSan, three build configurations; thorough tier additionally: the same per-input monitors as a clang 14 libFuzzer target (coverage-guided, 16 processes on a shared corpus, fixed execution count)",
   rule=("a case is one unit sequence in one source encoding, run through every conversion reading that encoding x 3 modes (+ mode-less calls); distinct by (encoding, units); evaluations count library calls; "
         "inputs without any bad unit or tolerated form are kept (they check 'accepted unchanged') but are the minority"),
   assumptions=_CONV_ASSUME + ["re-validation of repaired output is required only when the input has no tolerated non-scalar form (always for UTF-8 -> UTF-8)"],
@@ -194,7 +194,7 @@ P("C03", "conversions are total and memory-safe on arbitrary input", "conv",
   level_text=("runtime monitoring: arbitrary unit sequences (the C02 malformed sets, every truncation of valid text, pure garbage of length 0..64, lead-byte-dense tails, empty and (nullptr,0), inputs of 64 Ki..1 Mi units) "
               "are handed to every conversion in exact-size heap blocks without terminator under ASan+UBSan: a read past the input or a write past the result lands in a red zone, any abort/assertion/crash/hang/foreign exception "
               "is reported through the driver, and size(), the terminator and every unit of the result are compared with the reference transcoding under the same mode (so an unwritten unit shows as a mismatch)"),
-  technique="sanitizer-monitored execution (ASan+UBSan, exact-size placement, assertion observer, CPU watchdog) + differential size/content check against a reference transcoder",
+  technique="sanitizer-monitored execution (ASan+UBSan, exact-size placement, assertion observer, CPU watchdog) + differential size/content check against a reference transcoder; thorough tier additionally: the same per-input monitors as a clang 14 libFuzzer target (coverage-guided, 16 processes on a shared corpus, fixed execution count)",
   rule=("a case is one unit sequence in one source encoding through all 12 source/target pairs + aliases + ST::string members x 3 modes; distinct by (encoding, units); evaluations count library calls; nothing trivial "
         "(empty/null inputs are a dedicated phase)"),
   assumptions=_CONV_ASSUME + ["inputs of 256 Mi units or more are outside the property and are not run",
@@ -223,7 +223,7 @@ P("C10", "the format-string parser is total and memory-safe on every format stri
               "position, on mutated format strings and on numbers that overflow or wrap when narrowed, each with argument lists of every supported type; format strings live in exact-size heap blocks so a read "
               "past the terminating NUL is an ASan report; the outcome monitor accepts only output / bad_format / out_of_range / invalid_argument(null) / unicode_error / the documented padded-character contract "
               "assertion (classified in-process through the assertion observer hook) and checks that the requested validation alone decides between output and unicode_error"),
-  technique="sanitizer-monitored execution (ASan+UBSan, exact-size format strings, assertion observer, CPU watchdog) + outcome-class monitor + cross-mode consistency oracle",
+  technique="sanitizer-monitored execution (ASan+UBSan, exact-size format strings, assertion observer, CPU watchdog) + outcome-class monitor + cross-mode consistency oracle; thorough tier additionally: the same per-input monitors as a clang 14 libFuzzer target (coverage-guided, 16 processes on a shared corpus, fixed execution count)",
   rule=("a case is (format string, argument-list shape), run under 4 validation selectors; distinct by (shape, format bytes); evaluations count ST::format calls; nothing trivial"),
   assumptions=["digit runs meaning more than 200000 columns of padding / precision are skipped (resource bound, DESIGN 6.8); numbers that wrap to small or negative ints are included",
                "wide-string arguments are valid text, so unicode_error can only come from the result validation"],
